@@ -1521,7 +1521,15 @@ where
             // it in the above if stmt.
             match **unsafe { raw_node.deref() } {
                 BinEntry::Moved => {
+                    let prev = table;
                     table = self.help_transfer(table, guard);
+                    // `transfer` publishes the new bins of an old bin in the next table _before_
+                    // it forwards the old bin, so until the resize out of `prev` has been
+                    // committed, entries of the next table may still be reachable through `prev`
+                    // (which is still `self.table`) and must not be retired from there.
+                    while self.table.load(Ordering::SeqCst, guard) == prev {
+                        std::thread::yield_now();
+                    }
                     // start from the first bin again in the new table
                     idx = 0;
                 }
